@@ -1,10 +1,349 @@
-//! C08 — not built yet.
-use crate::ev::Ctx;
-pub fn run(_ctx: &Ctx) -> i32 {
-    println!("INCONCLUSIVE property=C08 check not built yet");
-    2
+//! C08 — TOML output is nothing or exactly one valid document.
+//!
+//! Histories of 1-3 translate calls (0-3 documents each, all four source
+//! formats, slice and reader, short-write writers) on one Translator(to=TOML).
+//! The writer's byte log and the Result of every call are judged against the
+//! invariant and the four mandated refusals.
+
+use serde_json::{json, Value};
+
+use crate::corpus::{join_stream, yaml_stream};
+use crate::ev::{self, Acc, Ctx, Finish, Violation};
+use crate::fmts::{self, Fmt};
+use crate::gen::{gen_doc, gen_scalar, Classes, GenOpts};
+use crate::model::{hex, preview, toml_match, unhex, Val};
+use crate::mon::{MonWriter, Sched};
+use crate::rng::Rng;
+use crate::run::{run_history, Call, Mode, Verdict};
+use crate::spell::{spell, Feats};
+
+/// Why a document must be refused by TOML output (the mandated refusals), or
+/// None if no mandated refusal applies.
+pub fn mandated_refusal(d: &Val) -> Option<&'static str> {
+    if !d.is_map() {
+        return Some("non-table root");
+    }
+    // a null in a value position (array element or map value); a null *key* is a
+    // non-string key, for which either outcome is allowed
+    fn null_value(v: &Val) -> bool {
+        match v {
+            Val::Null => true,
+            Val::Seq(xs) => xs.iter().any(null_value),
+            Val::Map(m) => m.iter().any(|(k, x)| null_value(x) || (k.is_collection() && null_value(k))),
+            _ => false,
+        }
+    }
+    if null_value(d) {
+        return Some("null");
+    }
+    if d.any(|v| matches!(v, Val::Int(i) if *i > i64::MAX as i128 || *i < i64::MIN as i128)) {
+        return Some("integer outside i64");
+    }
+    None
 }
-pub fn replay(_case: &serde_json::Value) -> i32 {
-    println!("replay not built yet");
-    2
+
+/// Documents for which either outcome is allowed (non-string keys, binary, ...).
+pub fn free_outcome(d: &Val) -> bool {
+    d.any(|v| matches!(v, Val::Bytes(_) | Val::F32(_) | Val::Ext(..))) || d.any(|v| matches!(v, Val::Map(m) if m.iter().any(|(k, _)| !matches!(k, Val::Str(_))))) || d.any(|v| matches!(v, Val::Float(b) if !f64::from_bits(*b).is_finite()))
+}
+
+fn plant(v: &mut Val, what: &Val, rng: &mut Rng, as_key: bool) {
+    match v {
+        Val::Seq(xs) => {
+            if xs.is_empty() || rng.chance(1, 3) {
+                let at = rng.below(xs.len() + 1);
+                xs.insert(at, what.clone());
+            } else {
+                let i = rng.below(xs.len());
+                plant(&mut xs[i], what, rng, as_key);
+            }
+        }
+        Val::Map(m) => {
+            if m.is_empty() || rng.chance(1, 3) {
+                let at = rng.below(m.len() + 1);
+                if as_key {
+                    m.insert(at, (what.clone(), Val::Int(1)));
+                } else {
+                    m.insert(at, (Val::Str(format!("planted{}", m.len())), what.clone()));
+                }
+            } else {
+                let i = rng.below(m.len());
+                plant(&mut m[i].1, what, rng, as_key);
+            }
+        }
+        other => {
+            if !as_key {
+                *other = what.clone()
+            }
+        }
+    }
+}
+
+#[derive(Clone, Debug)]
+pub struct DocSpec {
+    pub val: Val,
+    pub kind: &'static str,
+}
+
+pub fn gen_docspec(rng: &mut Rng, cl: &mut Classes) -> DocSpec {
+    let o = GenOpts { max_depth: 4, max_width: 4, ..GenOpts::toml() };
+    match rng.below(12) {
+        0 => DocSpec { val: gen_scalar(rng, &GenOpts::common(), cl), kind: "scalar_root" },
+        1 => DocSpec { val: Val::Seq((0..rng.below(3)).map(|_| gen_doc(rng, &o, cl)).collect()), kind: "array_root" },
+        2 => {
+            let mut d = gen_doc(rng, &o, cl);
+            plant(&mut d, &Val::Null, rng, false);
+            DocSpec { val: d, kind: "planted_null" }
+        }
+        3 => {
+            let mut d = gen_doc(rng, &o, cl);
+            let big = if rng.chance(1, 2) { (i64::MAX as i128) + 1 + rng.below(5) as i128 } else { u64::MAX as i128 - rng.below(5) as i128 };
+            plant(&mut d, &Val::Int(big), rng, false);
+            DocSpec { val: d, kind: "planted_oversized_int" }
+        }
+        4 => {
+            let mut d = gen_doc(rng, &o, cl);
+            let key = match rng.below(4) {
+                0 => Val::Int(rng.below(100) as i128),
+                1 => Val::Bool(true),
+                2 => Val::Null,
+                _ => Val::Seq(vec![Val::Int(1)]),
+            };
+            plant(&mut d, &key, rng, true);
+            DocSpec { val: d, kind: "planted_non_string_key" }
+        }
+        5 => {
+            let mut d = gen_doc(rng, &o, cl);
+            let n = rng.below(5);
+            plant(&mut d, &Val::Bytes(rng.bytes(n)), rng, false);
+            DocSpec { val: d, kind: "planted_binary" }
+        }
+        _ => DocSpec { val: gen_doc(rng, &o, cl), kind: "representable" },
+    }
+}
+
+fn can_spell(f: Fmt, v: &Val) -> bool {
+    match f {
+        Fmt::Json => v.is_common(),
+        Fmt::Yaml => !v.any(|x| matches!(x, Val::Bytes(_) | Val::F32(_) | Val::Ext(..) | Val::Datetime(_))),
+        Fmt::Msgpack => true,
+        Fmt::Toml => v.toml_ok(),
+    }
+}
+
+pub struct History {
+    pub calls: Vec<Call>,
+    /// per call: the documents it holds
+    pub docs: Vec<Vec<DocSpec>>,
+}
+
+pub fn gen_history(seed: u64, idx: usize, cl: &mut Classes) -> History {
+    let mut rng = Rng::derive(seed, 0xc08, idx as u64);
+    let n_calls = rng.range(1, 3);
+    let mut calls = vec![];
+    let mut docs = vec![];
+    let mut feats = Feats::default();
+    for _ in 0..n_calls {
+        let k = *rng.pick(&[0usize, 1, 1, 1, 1, 2, 3]);
+        let mut ds: Vec<DocSpec> = (0..k).map(|_| gen_docspec(&mut rng, cl)).collect();
+        // pick a source format that can spell every document of the call
+        let mut cands: Vec<Fmt> = [Fmt::Json, Fmt::Msgpack, Fmt::Yaml].into_iter().filter(|f| ds.iter().all(|d| can_spell(*f, &d.val))).collect();
+        if k == 1 && can_spell(Fmt::Toml, &ds[0].val) {
+            cands.push(Fmt::Toml);
+        }
+        if cands.is_empty() {
+            cands.push(Fmt::Msgpack);
+        }
+        let src = *rng.pick(&cands);
+        let plain = rng.chance(1, 3);
+        let bytes = match src {
+            Fmt::Yaml if !ds.is_empty() => yaml_stream(&ds.iter().map(|d| d.val.clone()).collect::<Vec<_>>(), &mut rng, &mut feats, plain),
+            _ => {
+                let sp: Vec<Vec<u8>> = ds.iter().map(|d| spell(src, &d.val, &mut rng, &mut feats, plain)).collect();
+                join_stream(src, &sp, &mut rng, &mut feats)
+            }
+        };
+        // an empty YAML stream through a slice is a recorded C02 finding; keep it out of this check
+        let mode = if ds.is_empty() && src == Fmt::Yaml {
+            Mode::Reader(Sched::All)
+        } else {
+            match rng.below(4) {
+                0 | 1 => Mode::Slice,
+                2 => Mode::Reader(Sched::One),
+                _ => Mode::Reader(Sched::Random(rng.next(), 32)),
+            }
+        };
+        let from = if rng.chance(1, 4) && xt::verif::detect_slice(&bytes).ok().flatten().map(Fmt::from_xt) == Some(src) { None } else { Some(src) };
+        calls.push(Call { input: bytes, from, mode });
+        docs.push(std::mem::take(&mut ds));
+    }
+    History { calls, docs }
+}
+
+pub fn judge(calls: &[Call], docs: &[Vec<DocSpec>], short_seed: Option<u64>, acc: &mut Acc) {
+    acc.evals += 1;
+    let w = match short_seed {
+        Some(s) => MonWriter::new().with_short(s, 7),
+        None => MonWriter::new(),
+    };
+    let (verdicts, wlog) = run_history(calls, Fmt::Toml, w, false);
+    let case = || {
+        json!({"short_write_seed": short_seed, "calls": calls.iter().zip(docs).map(|(c, d)| json!({"input_hex": hex(&c.input), "input_preview": preview(&c.input, 160), "from": fmts::from_name(c.from), "mode": c.mode.describe(), "document_kinds": d.iter().map(|x| x.kind).collect::<Vec<_>>(), "documents": d.iter().map(|x| ev::truncate(&x.val.show(), 200)).collect::<Vec<_>>()})).collect::<Vec<_>>()})
+    };
+    let mut vio = |sig: String, observed: String, expected: String, acc: &mut Acc| {
+        acc.violation(Violation { sig, case: case(), observed, expected });
+    };
+    if let Some(p) = verdicts.iter().position(|v| v.is_panic()) {
+        vio("panic".into(), format!("call {p}: {}", verdicts[p].show()), "no panic".into(), acc);
+        return;
+    }
+    // walk the history with the reference rules
+    let mut written: Option<&Val> = None; // the accepted document
+    let mut any_attempt = false; // a document has been offered before
+    for (ci, (call_docs, v)) in docs.iter().zip(verdicts.iter()).enumerate() {
+        // expected verdict of this call
+        let mut expect_err: Option<String> = None; // Some(reason) = must fail
+        let mut free = false; // either outcome allowed
+        for d in call_docs {
+            if written.is_some() {
+                expect_err = Some("a document was already written; a second document / input must be refused".into());
+                break;
+            }
+            if any_attempt {
+                // an earlier document was refused; whether this one is then accepted is not fixed by the property
+                free = true;
+                // we must still learn whether it was accepted: decided from the bytes below
+                any_attempt = true;
+                break;
+            }
+            any_attempt = true;
+            if let Some(r) = mandated_refusal(&d.val) {
+                expect_err = Some(format!("{r} must be refused"));
+                break;
+            }
+            if free_outcome(&d.val) {
+                free = true;
+                break;
+            }
+            written = Some(&d.val);
+        }
+        acc.count(&format!("call_outcome_{}", v.class()));
+        match (&expect_err, v) {
+            (Some(why), Verdict::Ok) if !free => {
+                vio(format!("accepted what must be refused: {}", why.split(';').next().unwrap_or("")), format!("call {ci} returned Ok; output so far [{}]", preview(&wlog.bytes, 200)), why.clone(), acc);
+                return;
+            }
+            (None, Verdict::Err(e)) if !free => {
+                vio(format!("refused a representable document: {}", crate::c02_mask(&ev::truncate(e, 60))), format!("call {ci} returned Err({e})"), "Ok: every document of this call is representable and nothing was written before".into(), acc);
+                return;
+            }
+            _ => {}
+        }
+        if free {
+            // stop interpreting the rest of the history call by call; the byte invariant below still applies
+            written = None;
+            acc.count("histories_with_free_outcome");
+            let bytes = &wlog.bytes;
+            if !bytes.is_empty() {
+                if let Err(e) = crate::read::toml::read(bytes) {
+                    vio("output is not one valid TOML document".into(), format!("{e}; output [{}]", preview(bytes, 300)), "nothing or exactly one valid TOML document".into(), acc);
+                }
+            }
+            return;
+        }
+    }
+    // byte invariant
+    let bytes = &wlog.bytes;
+    match written {
+        None => {
+            if !bytes.is_empty() {
+                vio("bytes written although no document was accepted".into(), format!("output [{}]", preview(bytes, 300)), "no output".into(), acc);
+            } else {
+                acc.count("histories_nothing_written");
+            }
+        }
+        Some(d) => {
+            if bytes.is_empty() && *d == Val::Map(vec![]) {
+                acc.count("histories_one_document_written");
+                return;
+            }
+            match crate::read::toml::read(bytes) {
+                Err(e) => vio("output is not one valid TOML document".into(), format!("{e}; output [{}]", preview(bytes, 300)), "exactly one valid TOML document".into(), acc),
+                Ok(got) => {
+                    if toml_match(d, &got) {
+                        acc.count("histories_one_document_written");
+                    } else {
+                        vio("output does not read back as the accepted document".into(), format!("{}; output [{}]", crate::model::toml_diff(d, &got, "$").unwrap_or_default(), preview(bytes, 300)), "the accepted document (modulo TOML reordering)".into(), acc);
+                    }
+                }
+            }
+        }
+    }
+}
+
+pub fn run(ctx: &Ctx) -> i32 {
+    let n = ctx.size(40000, 1000000);
+    let seed = ctx.seed;
+    let acc = crate::par::run(n, 16, |i, acc| {
+        let mut cl = Classes::default();
+        let h = gen_history(seed, i, &mut cl);
+        cl.add_to(acc);
+        for ds in &h.docs {
+            acc.count(&format!("call_docs_{}", ds.len()));
+            for d in ds {
+                acc.count(&format!("doc_kind_{}", d.kind));
+            }
+        }
+        acc.count(&format!("n_calls_{}", h.calls.len()));
+        for c in &h.calls {
+            acc.count(&format!("call_from_{}", fmts::from_name(c.from)));
+        }
+        acc.distinct(&h.calls.iter().map(|c| c.input.clone()).collect::<Vec<_>>());
+        acc.sample_every(2999, || json!({"calls": h.calls.iter().zip(&h.docs).map(|(c, d)| json!({"from": fmts::from_name(c.from), "mode": c.mode.describe(), "kinds": d.iter().map(|x| x.kind).collect::<Vec<_>>(), "input_preview": preview(&c.input, 100)})).collect::<Vec<_>>()}));
+        let short = if i % 3 == 0 { Some(seed ^ i as u64) } else { None };
+        judge(&h.calls, &h.docs, short, acc);
+    });
+    let rule = format!("{} histories of 1-3 translate calls on one Translator(to=TOML), 0-3 documents per call, documents: representable tables, every non-table root type, a null / oversized integer / non-string key / binary planted at a random path of a generated tree, keys from the hostile string pools (all quoting styles), arrays of tables; sources JSON/MessagePack/YAML/TOML, slice and reader, explicit and detected, every third history through a short-write writer (1-7 bytes per call); distinct non-trivial = distinct input sequences", n);
+    ev::finish(
+        Finish { ctx, level: "exploration", rule, assumptions: vec!["after a refused first document the fate of later documents is not fixed by the property (either outcome accepted, byte invariant still enforced)".into(), "non-string keys, binary and non-finite floats may be accepted or refused".into()], extra: serde_json::Map::new(), exhaustive: false, min_distinct: 1000, must_reach: vec![("TOML_SECOND_USE_REFUSED".into(), 100), ("TOML_NON_TABLE_ROOT_REFUSED".into(), 100), ("histories_one_document_written".into(), 100), ("doc_kind_planted_null".into(), 100), ("doc_kind_planted_oversized_int".into(), 100)] },
+        acc,
+    )
+}
+
+pub fn replay(v: &Value) -> i32 {
+    let c = &v["case"];
+    let Some(arr) = c["calls"].as_array() else {
+        println!("bad replay case");
+        return 2;
+    };
+    let mut calls = vec![];
+    let mut docs: Vec<Vec<DocSpec>> = vec![];
+    for x in arr {
+        let (Some(input), Some(from), Some(mode)) = (x["input_hex"].as_str().and_then(unhex), x["from"].as_str().and_then(fmts::parse_from), x["mode"].as_str().and_then(Mode::parse)) else {
+            println!("bad replay case");
+            return 2;
+        };
+        let src = from.or_else(|| xt::verif::detect_slice(&input).ok().flatten().map(Fmt::from_xt)).unwrap_or(Fmt::Json);
+        let ds = match src {
+            Fmt::Json => crate::read::json::read_many(&input).map(|v| v.into_iter().map(|x| x.0).collect::<Vec<_>>()),
+            Fmt::Msgpack => crate::read::msgpack::read_all(&input),
+            Fmt::Yaml => crate::read::yaml::read_docs(&input).map(|v| v.into_iter().map(|d| d.val).collect()),
+            Fmt::Toml => crate::read::toml::read(&input).map(|v| vec![v]),
+        };
+        let Ok(ds) = ds else {
+            println!("cannot re-read an input");
+            return 2;
+        };
+        docs.push(ds.into_iter().map(|val| DocSpec { val, kind: "replayed" }).collect());
+        calls.push(Call { input, from, mode });
+    }
+    let mut acc = Acc::default();
+    judge(&calls, &docs, c["short_write_seed"].as_u64(), &mut acc);
+    if acc.vio_count > 0 {
+        println!("VIOLATION property=C08 replay=<this file> (reproduced): {} / {}", acc.violations[0].sig, acc.violations[0].observed);
+        1
+    } else {
+        println!("not reproduced");
+        0
+    }
 }
